@@ -43,6 +43,9 @@ func (c *fnCtx) call(v *ast.CallExpr, pre *[]fnBind, want []string) ([]string, [
 				}
 			case "cap":
 				if len(v.Args) == 1 {
+					if x := c.plainVar(v.Args[0]); x != nil && x.role == "field" && c.fat[x] != nil {
+						return one("(zlen "+x.name+" + zlen "+c.fat[x].name+")", tyInt)
+					}
 					if id, ok := v.Args[0].(*ast.Ident); ok {
 						if x := c.lookup(id); x != nil && x.view != nil {
 							return one("(vcap "+x.view.name+")", tyInt)
@@ -148,6 +151,14 @@ func (c *fnCtx) callTranslated(cal *fnFunc, v *ast.CallExpr, pre *[]fnBind, want
 			c.lostAt(v, "call of %s (field %s)", cal.name, f)
 		}
 		s += " " + x.name
+		if cal.fatFields[f] {
+			if c.fat[x] == nil {
+				c.lostAt(v, "call of %s (capacity of %s)", cal.name, f)
+			}
+			s += " " + c.fat[x].name
+		} else if c.fat[x] != nil && cal.reshapes[f] {
+			c.lostAt(v, "call of %s, which re-slices %s without tracking its capacity", cal.name, f)
+		}
 	}
 	var mutArgs []*fnVar
 	for i, p := range cal.params {
@@ -224,7 +235,13 @@ func (c *fnCtx) callTranslated(cal *fnFunc, v *ast.CallExpr, pre *[]fnBind, want
 	pat := append([]string{}, res...)
 	effect := false
 	for _, f := range cal.mutFields {
+		if c.fields[f] == nil {
+			c.lostAt(v, "call of %s (field %s)", cal.name, f)
+		}
 		pat = append(pat, c.fields[f].name)
+		if cal.fatFields[f] {
+			pat = append(pat, c.fat[c.fields[f]].name)
+		}
 		effect = true
 	}
 	for _, x := range mutArgs {
@@ -390,6 +407,10 @@ func (c *fnCtx) stmt(s ast.Stmt, k func() term) term {
 			c.objCall(fv, m, call, &pre, nil)
 			return wrap(pre, k())
 		}
+		if isBuiltin(call, "copy", 2) {
+			c.copyStmt(call, &pre)
+			return wrap(pre, k())
+		}
 		if id, ok := call.Fun.(*ast.Ident); ok && id.Name == "delete" && id.Obj == nil && len(call.Args) == 2 {
 			x := c.plainVar(call.Args[0])
 			if x == nil || x.typ.k != "map" {
@@ -503,6 +524,12 @@ func (c *fnCtx) stmt(s ast.Stmt, k func() term) term {
 		var pre []fnBind
 		var vals []string
 		res := c.fn.results
+		if c.fn.retRecv {
+			if len(v.Results) != 1 || !c.isRecvSyntax(v.Results[0]) {
+				c.lostAt(v, "return of something else than the receiver")
+			}
+			return c.retTerm(nil)
+		}
 		if len(v.Results) == 0 {
 			if len(res) > 0 {
 				if len(c.retNames) != len(res) {
@@ -916,7 +943,7 @@ func (c *fnCtx) assign1(st *ast.AssignStmt, l, r ast.Expr, k func() term) term {
 	}
 	// z = w[lo:hi] where w came from an oracle append: exact up to cap(w); w must be dead afterwards
 	if se, ok := r.(*ast.SliceExpr); ok && !se.Slice3 {
-		if w := c.plainVar(se.X); w != nil && c.fat[w] != nil {
+		if w := c.plainVar(se.X); w != nil && c.fat[w] != nil && w.role != "field" {
 			z := c.plainVar(l)
 			if z == nil || z.typ.k != "slice" || z.noElems || z.view != nil || c.fat[z] != nil {
 				c.lostAt(st, "re-slice of %s into %s", w.name, src(l))
@@ -950,6 +977,9 @@ func (c *fnCtx) assign1(st *ast.AssignStmt, l, r ast.Expr, k func() term) term {
 			case "append":
 				if lv == nil || c.plainVar(call.Args[0]) != lv || call.Ellipsis.IsValid() || lv.typ.k != "slice" {
 					c.lostAt(st, "append (only x = append(x, e...) on a list-represented slice)")
+				}
+				if lv.role == "field" && c.fat[lv] != nil {
+					c.lostAt(st, "append to %s, whose capacity is tracked", lv.name)
 				}
 				var xs []string
 				for _, a := range call.Args[1:] {
@@ -998,9 +1028,26 @@ func (c *fnCtx) assign1(st *ast.AssignStmt, l, r ast.Expr, k func() term) term {
 				x := c.target(l, st, t)
 				if x != nil {
 					pre = append(pre, fnBind{pat: x.name, e: val, isLet: true})
+					if sp := c.fat[x]; sp != nil && x.role == "field" {
+						// the rest of the fresh array, up to its capacity, is zero as well
+						spv := "[]"
+						if cp != n {
+							spv = "repeat " + c.zeroOf(t.elem, st) + " (Z.to_nat (" + cp + " - " + n + "))"
+						}
+						pre = append(pre, fnBind{pat: sp.name + " : " + varType(sp), e: spv, isLet: true})
+					}
 				}
 				return wrap(pre, k())
 			}
+		}
+	}
+	if se, ok := r.(*ast.SliceExpr); ok && lv != nil && c.plainVar(se.X) == lv && lv.role == "field" && c.fat[lv] != nil && !se.Slice3 {
+		c.fatReslice(lv, se, &pre)
+		return wrap(pre, k())
+	}
+	if lv != nil && lv.role == "field" && c.fat[lv] != nil {
+		if call, ok := r.(*ast.CallExpr); !ok || !isBuiltin(call, "make", len(call.Args)) {
+			c.lostAt(st, "assignment to %s, whose capacity is tracked (only make and a re-slice of itself)", lv.name)
 		}
 	}
 	if se, ok := r.(*ast.SliceExpr); ok && lv != nil && c.plainVar(se.X) == lv && lv.typ.k == "slice" && !lv.noElems && !se.Slice3 {
